@@ -5,6 +5,7 @@ from ..model import AnalysisError, src, loc, call_name, dotted, params_of, norm_
 from ..nf import Evaluator, Rat, PointV, ExprV, TupleV, Opaque, SortError
 from .. import flow
 from . import common, formula
+from ..miniint import ProgramRaise as ProgramRaiseT
 
 LEVEL = "other"
 EXPLANATION = ("Abstract path enumeration of Function.oracle over the finite domain (already evaluated?, differentiable?, some term needs a value?, some "
@@ -184,7 +185,7 @@ def r_onevalue(ctx):
         try:
             got = m.run(st)
         except AnalysisError as e:
-            ctx.ob("R-ONEVALUE", "Function.oracle::" + label, False, str(e), loc(fn, fn))
+            ctx.ob_or_program(("funcsys",), "R-ONEVALUE", "Function.oracle::" + label, False, str(e), loc(fn, fn))
             continue
         if A and R:
             want = {"outcome": "return-stored-pair"}
@@ -194,7 +195,7 @@ def r_onevalue(ctx):
                     "g": "combination" if (NV and NG) else "fresh",
                     "recorded": [point, m.g, m.f]}
         ok = all(got.get(k) == v for k, v in want.items())
-        ctx.ob("R-ONEVALUE", "Function.oracle::" + label, ok,
+        ctx.ob_or_program(("funcsys",), "R-ONEVALUE", "Function.oracle::" + label, ok,
                "as documented: %s" % want if ok else "oracle gives %s, the documented bookkeeping is %s" % ({k: got.get(k) for k in want}, want), loc(fn, fn))
     ctx.count("oracle states", n)
     ctx.sample({"rule": "R-ONEVALUE", "states": 16, "variables": {"lookup": m.lookup, "need lists": m.lists, "g": m.g, "f": m.f}})
@@ -219,15 +220,15 @@ def r_onevalue(ctx):
             ok = ok_t and ok_e
             msg = "value() returns the stored value when there is one, the oracle's value otherwise" if ok else \
                 "value(): stored branch ok=%s, oracle branch ok=%s" % (ok_t, ok_e)
-    ctx.ob("R-ONEVALUE", "Function.value", ok, msg, loc(vf, vf))
+    ctx.ob_or_program(("funcsys",), "R-ONEVALUE", "Function.value", ok, msg, loc(vf, vf))
     # gradient/subgradient return the oracle's gradient
     sg = _fn(ctx, "subgradient")
     okg = any(isinstance(s, ast.Assign) and isinstance(s.value, ast.Call) and call_name(s.value) == "oracle" and isinstance(s.targets[0], ast.Tuple)
               and any(isinstance(r, ast.Return) and dotted(r.value) == dotted(s.targets[0].elts[0]) for r in ast.walk(sg)) for s in flow.stmts_of(sg, ast.Assign))
-    ctx.ob("R-ONEVALUE", "Function.subgradient", okg, "returns the first component of oracle" if okg else "does not return the oracle's gradient", loc(sg, sg))
+    ctx.ob_or_program(("funcsys",), "R-ONEVALUE", "Function.subgradient", okg, "returns the first component of oracle" if okg else "does not return the oracle's gradient", loc(sg, sg))
     gr = _fn(ctx, "gradient")
     okg = any(isinstance(r, ast.Return) and isinstance(r.value, ast.Call) and call_name(r.value) == "subgradient" for r in ast.walk(gr))
-    ctx.ob("R-ONEVALUE", "Function.gradient", okg, "delegates to subgradient" if okg else "does not delegate to subgradient", loc(gr, gr))
+    ctx.ob_or_program(("funcsys",), "R-ONEVALUE", "Function.gradient", okg, "delegates to subgradient" if okg else "does not delegate to subgradient", loc(gr, gr))
 
 
 # ---------------------------------------------------------------------------------------------------
@@ -331,7 +332,7 @@ def r_lookup_and_separate(ctx):
                 break
         if bad:
             break
-    ctx.ob("R-SEPARATE", "Function.%s" % SEPARATE, bad is None,
+    ctx.ob_or_program(("funcsys",), "R-SEPARATE", "Function.%s" % SEPARATE, bad is None,
            "terms are sorted by (already evaluated, the TERM's own differentiability) into need-nothing / need-gradient / need-both, with their weights" if bad is None else bad,
            loc(fn, fn))
     ctx.count("need classifications unrolled", n)
@@ -344,7 +345,7 @@ def r_stationary_list(ctx):
     trip = params_of(fn)[1]
     un = [s for s in fn.body if isinstance(s, ast.Assign) and isinstance(s.targets[0], ast.Tuple) and dotted(s.value) == trip and len(s.targets[0].elts) == 3]
     if len(un) != 1:
-        ctx.ob("R-STAT", "Function.add_point::stationary list", False, "the triplet is not unpacked into (point, gradient, value)", loc(fn, fn))
+        ctx.ob_or_program(("funcsys",), "R-STAT", "Function.add_point::stationary list", False, "the triplet is not unpacked into (point, gradient, value)", loc(fn, fn))
         return
     p, g, f = [e.id for e in un[0].targets[0].elts]
     st = [c for c in ast.walk(fn) if isinstance(c, ast.Call) and call_name(c) == "append" and dotted(c.func.value) == "self.list_of_stationary_points"]
@@ -353,7 +354,7 @@ def r_stationary_list(ctx):
         conds = flow.conditions_guarding(common.stmt_of(st[0]))
         oks = len(conds) == 1 and conds[0][1] and src(conds[0][0]).replace(" ", "") in ("%s.decomposition_dict==dict()" % g, "%s.decomposition_dict=={}" % g, "not%s.decomposition_dict" % g, "len(%s.decomposition_dict)==0" % g, "notlen(%s.decomposition_dict)" % g) \
             and dotted(st[0].args[0]) == trip
-    ctx.ob("R-STAT", "Function.add_point::stationary list", oks,
+    ctx.ob_or_program(("funcsys",), "R-STAT", "Function.add_point::stationary list", oks,
            "a sample joins the stationary list exactly when its pruned gradient is zero" if oks else "the stationary list is not fed by `gradient decomposition == {}`", loc(fn, fn))
 
 
@@ -366,7 +367,7 @@ def r_sample_registered(ctx):
     pc = flow.path_counts(fn.body, lambda n: isinstance(n, ast.Call) and call_name(n) == "append" and dotted(n.func.value) == "self.list_of_points")
     normal = pc.get("next", set()) | pc.get("return", set())
     okr = len(reg) == 1 and dotted(reg[0].value.args[0]) == trip and normal == {1}
-    ctx.ob("R-ADDPOINT", "Function.add_point::registered", okr,
+    ctx.ob_or_program(("funcsys",), "R-ADDPOINT", "Function.add_point::registered", okr,
            "every sample handed to add_point is appended to list_of_points, on every path" if okr else
            "on some path add_point completes without registering the sample (appends per completing path: %s): whether a sample constrains the function "
            "then depends on what was recorded before it" % sorted(normal), loc(fn, fn))
@@ -508,7 +509,7 @@ def r_addpoint_program(ctx):
                 bad = "a leaf function: the sample is registered %s time(s)" % (len(reg) if isinstance(reg, list) else "?")
         except AnalysisError as e:
             bad = "a leaf function: add_point not interpretable: %s" % e
-    ctx.ob("R-WSUM", "Function.add_point::weighted sum (unrolled, 1..3 terms, every classification)", bad is None,
+    ctx.ob_or_program(("funcsys",), "R-WSUM", "Function.add_point::weighted sum (unrolled, 1..3 terms, every classification)", bad is None,
            "the sample is registered once, every term is visited once, the remainder goes to a term in need and the weighted samples of the terms sum to the sample of the composite"
            if bad is None else bad, loc(fn, fn))
     ctx.count("add_point programs unrolled", n_runs)
@@ -520,7 +521,7 @@ def r_addpoint(ctx):
     trip = params_of(fn)[1]
     un = [s for s in fn.body if isinstance(s, ast.Assign) and isinstance(s.targets[0], ast.Tuple) and dotted(s.value) == trip and len(s.targets[0].elts) == 3]
     if len(un) != 1:
-        ctx.ob("R-ADDPOINT", "Function.add_point::unpack", False, "the triplet is not unpacked into (point, gradient, value)", loc(fn, fn))
+        ctx.ob_or_program(("funcsys",), "R-ADDPOINT", "Function.add_point::unpack", False, "the triplet is not unpacked into (point, gradient, value)", loc(fn, fn))
         return
     p, g, f = [e.id for e in un[0].targets[0].elts]
     # 1. all three members pruned
@@ -547,7 +548,7 @@ def r_addpoint(ctx):
     pc = flow.path_counts(fn.body, lambda n: isinstance(n, ast.Call) and call_name(n) == "append" and dotted(n.func.value) == "self.list_of_points")
     normal = pc.get("next", set()) | pc.get("return", set())
     okr = len(reg) == 1 and dotted(reg[0].value.args[0]) == trip and normal == {1}
-    ctx.ob("R-ADDPOINT", "Function.add_point::registered", okr,
+    ctx.ob_or_program(("funcsys",), "R-ADDPOINT", "Function.add_point::registered", okr,
            "every sample handed to add_point is appended to list_of_points, on every path" if okr else
            "on some path add_point completes without registering the sample (appends per completing path: %s): a step that records a sample on the "
            "function (e.g. a proximal step at an already evaluated point) silently loses it" % sorted(normal), loc(fn, fn))
@@ -644,13 +645,13 @@ def r_stat(ctx):
             ok = all(src(r.value).replace(" ", "") in (x, "(%s,%s,%s)" % (x, g, f)) for r in rets) and len(rets) == 2
             if not ok:
                 msg = "returns %s" % [src(r.value) for r in rets]
-    ctx.ob("R-STAT", "Function.stationary_point", ok, msg, loc(fn, fn))
+    ctx.ob_or_program(("funcsys",), "R-STAT", "Function.stationary_point", ok, msg, loc(fn, fn))
     fp = _fn(ctx, "fixed_point")
     adds = [c for c in ast.walk(fp) if isinstance(c, ast.Call) and call_name(c) == "add_point"]
     ok = len(adds) == 1 and isinstance(adds[0].args[0], ast.Tuple) and len(adds[0].args[0].elts) == 3 and \
         dotted(adds[0].args[0].elts[0]) == dotted(adds[0].args[0].elts[1]) and \
         any(isinstance(r, ast.Return) and isinstance(r.value, ast.Tuple) and [dotted(e) for e in r.value.elts] == [dotted(e) for e in adds[0].args[0].elts] for r in ast.walk(fp))
-    ctx.ob("R-STAT", "Function.fixed_point", ok, "registers and returns (x, x, fx)" if ok else "does not register (x, x, fx)", loc(fp, fp))
+    ctx.ob_or_program(("funcsys",), "R-STAT", "Function.fixed_point", ok, "registers and returns (x, x, fx)" if ok else "does not register (x, x, fx)", loc(fp, fp))
 
 
 def r_pruned_consumers(ctx):
@@ -685,16 +686,51 @@ def r_pruned_consumers(ctx):
     return len(consumers)
 
 
+def _tolerant(ctx, rule_fn):
+    """a per-method rule that cannot read the way the method is written gives way to the system program when that one ran and passed"""
+    try:
+        return rule_fn(ctx)
+    except AnalysisError as e:
+        if isinstance(e, ProgramRaiseT) or not ctx.program_ok.get(("funcsys",)):
+            raise
+        ctx.notes.append("%s: %s; decided by R-FUNCSYS (the stores unrolled as a system)" % (rule_fn.__name__, e))
+        return None
+
+
+def r_system(ctx):
+    """the system program, once per check"""
+    if not getattr(ctx, "_funcsys_done", False):
+        ctx._funcsys_done = True
+        from . import funcsys
+        funcsys.r_function_system(ctx)
+
+
+def r_bookkeeping(ctx):
+    """the oracle / value / gradient / add_point bookkeeping: the system program first, the per-method rules after it"""
+    r_system(ctx)
+    _tolerant(ctx, r_onevalue)
+
+
+def with_system(ctx, rule_fn):
+    """a per-method rule used by another property: the system program decides first, the rule gives way to it where it cannot read the method"""
+    r_system(ctx)
+    return _tolerant(ctx, rule_fn)
+
+
 def run(ctx):
-    r_onevalue(ctx)
-    r_lookup_and_separate(ctx)
-    r_addpoint(ctx)
+    r_bookkeeping(ctx)
+    _tolerant(ctx, r_lookup_and_separate)
+    _tolerant(ctx, r_addpoint)
     n = r_flag(ctx)
-    r_stat(ctx)
+    _tolerant(ctx, r_stat)
     nc = r_pruned_consumers(ctx)
+    from . import c08
+    ns = c08.r_step_routes(ctx)                 # the route through a primitive step: own samples only where the function cannot have been asked before
+    ctx.floor("samples recorded by steps", ns, 5)
     from . import c06
     c06.r_opsem(ctx, only=("Function",))      # the weights of a composite are what the operators make them
     from . import leafprog
     leafprog.r_function_creation(ctx)           # a leaf function is one term with weight 1; the flag and the containers are the object's own
     ctx.floor("family constructors", n, 20)
     ctx.floor("consumers of composite weights", nc, 2)
+    ctx.floor("query histories unrolled", ctx.analysed.get("query histories unrolled", 0), 1000)
